@@ -20,6 +20,7 @@ import (
 	"github.com/marekgalovic/anndb/storage"
 	"github.com/marekgalovic/anndb/storage/wal"
 
+	etcdRaft "github.com/coreos/etcd/raft"
 	"github.com/coreos/etcd/raft/raftpb"
 	"github.com/golang/protobuf/proto"
 	uuid "github.com/satori/go.uuid"
@@ -34,6 +35,8 @@ type durView struct {
 	last      uint64
 	violation []string
 	saves     int
+	terms     map[uint64]uint64 // the log as it was made durable: index -> term (an append replaces the suffix)
+	logLast   uint64
 }
 
 type monWAL struct {
@@ -59,6 +62,23 @@ func (w *monWAL) Save(h raftpb.HardState, es []raftpb.Entry, s raftpb.Snapshot) 
 		if li, e := w.WAL.LastIndex(); e == nil {
 			w.v.last = li
 		}
+		if w.v.terms == nil {
+			w.v.terms = map[uint64]uint64{}
+		}
+		if !etcdRaft.IsEmptySnap(s) && s.Metadata.Index >= w.v.logLast {
+			w.v.terms = map[uint64]uint64{}
+			w.v.logLast = s.Metadata.Index
+		}
+		if len(es) > 0 {
+			for _, e := range es {
+				w.v.terms[e.Index] = e.Term
+			}
+			last := es[len(es)-1].Index
+			for i := last + 1; i <= w.v.logLast; i++ {
+				delete(w.v.terms, i)
+			}
+			w.v.logLast = last
+		}
 	}
 	return err
 }
@@ -81,7 +101,7 @@ type c05Case struct {
 	Converged  bool         `json:"converged"`
 }
 
-func runC05Schedule(r *rng, nEvents int) (c05Case, error) {
+func runC05Schedule(r *rng, nEvents int, script []string) (c05Case, error) {
 	var cs c05Case
 	nodes := []uint64{1, 2, 3}
 	c := newSimCluster(nodes)
@@ -100,6 +120,21 @@ func runC05Schedule(r *rng, nEvents int) (c05Case, error) {
 			v.mu.Lock()
 			if h.Term < v.hard.Term {
 				v.violation = append(v.violation, fmt.Sprintf("store reopened with an older term: %d -> %d", v.hard.Term, h.Term))
+			}
+			// the reopened log must be the log that was made durable: same last index, same term at every index it still holds
+			if v.saves > 0 && v.logLast > 0 {
+				if li, e := w.LastIndex(); e == nil && li != v.logLast {
+					v.violation = append(v.violation, fmt.Sprintf("store reopened with a log it never made durable: last index %d before the restart, %d after", v.logLast, li))
+				}
+				if fi, e := w.FirstIndex(); e == nil {
+					for i := fi; i <= v.logLast; i++ {
+						want, known := v.terms[i]
+						if t, e := w.Term(i); known && e == nil && t != want {
+							v.violation = append(v.violation, fmt.Sprintf("store reopened with term %d at index %d, durable term was %d", t, i, want))
+							break
+						}
+					}
+				}
 			}
 			v.mu.Unlock()
 		}
@@ -182,19 +217,94 @@ func runC05Schedule(r *rng, nEvents int) (c05Case, error) {
 		}
 		return 0
 	}
+	nudge := 0
 	ensureLeader := func() {
 		deadline := time.Now().Add(3 * time.Second)
 		for time.Now().Before(deadline) {
 			if leaderOf() != 0 {
 				return
 			}
+			// nudge ONE connected replica at a time, a different one each round, and give the election time to finish:
+			// a replica whose log is behind cannot win, and campaigning it over and over only raises the term and
+			// resets the others' election timers (no leader, ever - an artefact of the nudging, not of the code)
+			var up []uint64
 			for _, n := range nodes {
 				if alive[n] && !cut[n] {
-					c.nodes[n].datasets[dsid].VerifRaft(0).VerifCampaign()
-					break
+					up = append(up, n)
 				}
 			}
-			time.Sleep(20 * time.Millisecond)
+			if len(up) > 0 {
+				c.nodes[up[nudge%len(up)]].datasets[dsid].VerifRaft(0).VerifCampaign()
+				nudge++
+			}
+			for k := 0; k < 8 && leaderOf() == 0; k++ {
+				time.Sleep(20 * time.Millisecond)
+			}
+		}
+	}
+	// a scripted prologue ("C1" cut node 1, "W2" write through node 2 - even if it is cut off, as a client of a deposed
+	// leader would -, "H" heal, "K1" crash node 1, "R" restart what crashed, "S" let things settle), then random events
+	write := func(via uint64, timeout time.Duration) {
+		op := c03Op{Kind: []string{"insert", "insert", "update", "remove"}[r.intn(4)], Id: ids[r.intn(len(ids))], Vec: genVec(r, 2)}
+		ctx, cancel := context.WithTimeout(context.Background(), timeout)
+		var e error
+		ds := c.nodes[via].datasets[dsid]
+		switch op.Kind {
+		case "insert":
+			e = ds.Insert(ctx, mustUUID(op.Id), f32bitsVec(op.Vec), nil)
+		case "update":
+			e = ds.Update(ctx, mustUUID(op.Id), f32bitsVec(op.Vec), nil)
+		case "remove":
+			e = ds.Remove(ctx, mustUUID(op.Id))
+		}
+		cancel()
+		acked := e == nil || errClass(e) == "exists" || errClass(e) == "notfound"
+		cs.Ops = append(cs.Ops, op)
+		cs.Acked = append(cs.Acked, acked)
+		cs.Events = append(cs.Events, c05Event{Kind: "write", Node: via, Id: op.Id, Op: op.Kind, Acked: acked})
+	}
+	for _, step := range script {
+		var n uint64
+		if len(step) > 1 {
+			n = uint64(step[1] - '0')
+		}
+		switch step[0] {
+		case 'C':
+			cut[n] = true
+			c.nodes[n].setUnreachable(true)
+			cs.Events = append(cs.Events, c05Event{Kind: "cut", Node: n})
+		case 'W':
+			if !cut[n] {
+				ensureLeader()
+				write(n, 600*time.Millisecond)
+			} else {
+				write(n, 120*time.Millisecond)
+			}
+		case 'H':
+			for m := range cut {
+				c.nodes[m].setUnreachable(false)
+				delete(cut, m)
+				cs.Events = append(cs.Events, c05Event{Kind: "heal", Node: m})
+			}
+		case 'K':
+			c.nodes[n].datasets[dsid].VerifRaft(0).Stop()
+			alive[n] = false
+			c.nodes[n].setUnreachable(true)
+			cs.Events = append(cs.Events, c05Event{Kind: "crash", Node: n})
+		case 'R':
+			for _, m := range nodes {
+				if !alive[m] {
+					c.nodes[m].setUnreachable(false)
+					if err := restart(m); err != nil {
+						viol = append(viol, fmt.Sprintf("restart of node %d failed: %v", m, err))
+					}
+					alive[m] = true
+					cs.Events = append(cs.Events, c05Event{Kind: "restart", Node: m})
+				}
+			}
+		case 'S':
+			ensureLeader()
+			time.Sleep(400 * time.Millisecond)
 		}
 	}
 	for len(cs.Events) < nEvents {
@@ -312,7 +422,17 @@ func runC05Schedule(r *rng, nEvents int) (c05Case, error) {
 	}
 	cs.Final = dump(1)
 	if !cs.Converged {
-		viol = append(viol, fmt.Sprintf("replicas did not converge after faults stopped: %v | %v | %v", dump(1), dump(2), dump(3)))
+		diag := ""
+		for _, n := range nodes {
+			g := c.nodes[n].datasets[dsid].VerifRaft(0)
+			if g == nil {
+				diag += fmt.Sprintf(" node %d: no group;", n)
+				continue
+			}
+			s := g.VerifStatus()
+			diag += fmt.Sprintf(" node %d: term=%d lead=%d commit=%d applied=%d state=%v;", n, s.Term, s.Lead, s.Commit, s.Applied, s.RaftState)
+		}
+		viol = append(viol, fmt.Sprintf("replicas did not converge after faults stopped: %v | %v | %v (%s)", dump(1), dump(2), dump(3), diag))
 	}
 	vmu.Lock()
 	for n, v := range views {
@@ -333,11 +453,20 @@ func runC05Schedule(r *rng, nEvents int) (c05Case, error) {
 
 func runC05(a *args) error {
 	r := newRng(a.seed)
-	st := newStats("3-replica partition groups on a simulated cluster: schedules of 25..45 events — writes through any connected node (55%), cutting one node off / healing (message loss in both directions), crash of one replica (clean stop or abrupt) and restart through the real boot path with the partition's node ids; every raft message checked against the sender's durable state (vote grants, append acknowledgements, terms), every Save checked for a hard state moving backwards, convergence and explained contents after faults stop; non-trivial = contains a crash+restart and a cut; distinct by hash of the event list")
+	st := newStats("3-replica partition groups on a simulated cluster: two scripted prologues (a deposed leader's uncommitted tail overwritten by a shorter suffix, then a restart of that replica) and schedules of 25..45 events — writes through any connected node (55%), cutting one node off / healing (message loss in both directions), crash of one replica (clean stop or abrupt) and restart through the real boot path with the partition's node ids; every raft message checked against the sender's durable state (vote grants, append acknowledgements, terms), every Save checked for a hard state moving backwards, every reopened log compared with the log that was made durable (last index, term at every index), convergence and explained contents after faults stop; non-trivial = contains a crash+restart and a cut; distinct by hash of the event list")
 	var cases []c05Case
 	seen := map[string]bool{}
 	for i := 0; i < a.n; i++ {
-		cs, err := runC05Schedule(r.fork(), 25+r.intn(21))
+		var script []string
+		switch i {
+		case 0:
+			// a deposed leader's uncommitted tail is overwritten by a shorter suffix of the new leader, then that replica restarts
+			script = []string{"W1", "C1", "W1", "W1", "W1", "W1", "W2", "W3", "H", "S", "K1", "R", "S", "W2"}
+		case 1:
+			// the same with the restart while the old leader is still cut off
+			script = []string{"W1", "C1", "W1", "W1", "W1", "W2", "H", "S", "W3", "K1", "S", "R", "S"}
+		}
+		cs, err := runC05Schedule(r.fork(), 25+r.intn(21), script)
 		if err != nil {
 			return err
 		}
